@@ -9,7 +9,7 @@ ID = "C11"
 LEVEL = "exploration"
 N = {"quick": 2800, "thorough": 12000}
 RULE = ("cases: (constraint list, dyadic behaviour) with the behaviour placed on / just inside / just outside (2^-6) a chosen "
-        "constraint boundary or random, behaviours missing a constrained variable, behaviours with extra variables, emptiness "
+        "constraint boundary or random, tiny coefficients (2^-41..2^-30) times huge values with every key order of the behaviour, behaviours missing a constrained variable, behaviours with extra variables, emptiness "
         "queries on feasible / infeasible / thin systems (margins 0, 1e-3, 1e-2, 1) optionally with unrelated rows of magnitude 2^-10..1e6, mined solver-hard systems (corpus/lp_hard), and refinement-consistency pairs L within R; "
         "expected answers by Fraction evaluation and exact feasibility; non-trivial = list has >= 2 terms or >= 2 variables and "
         "the case was judged; distinct = SHA-1 of the case")
@@ -42,6 +42,16 @@ def _member(draw):
             beh[v] = float(val)
         else:
             place = "random"
+    if draw(st.integers(0, 11)) == 0:
+        # a tiny coefficient (2^-41..2^-30) on a variable with a huge value (2^40..2^51): the product decides membership; the
+        # order of the keys in the behaviour varies (values are substituted one at a time)
+        t = draw(st.sampled_from(terms))
+        v = draw(st.sampled_from(pool))
+        k = draw(st.sampled_from([41, 38, 34, 30]))
+        t[0][v] = 2.0 ** -k * draw(st.sampled_from([1, -1]))
+        beh[v] = 2.0 ** (k + draw(st.sampled_from([4, 6, 10]))) * draw(st.sampled_from([1, -1]))
+        place = "tiny-times-huge"
+    beh = {n: beh[n] for n in draw(st.permutations(sorted(beh)))}
     variant = draw(st.sampled_from(["exact", "exact", "exact", "missing", "extra"]))
     if variant == "missing":
         used = sorted({n for t in terms for n in t[0]})
